@@ -27,12 +27,49 @@ CALL_ACTS = {
     "request_rejoin": "ARequestRejoin",
     "reset_generation": "AResetGeneration",
     "force_metadata_update": "AMetadataUpdate",
+    "done": "ADone",                 # batch.done(...): the records' futures resolve with metadata
+    "failure": "AFail",              # batch.failure(exception=...): the records' futures fail
 }
 PRELUDE = """From Coq Require Import ZArith List Bool.
 From Verif Require Import DispatchActs.
 Import ListNotations.
 Open Scope Z_scope.
 """
+
+
+def class_flags(repo, attr):
+    """{errno: bool} of a boolean class attribute (retriable / invalid_metadata) of every broker error class,
+    resolved through the base classes as Python would."""
+    path = os.path.join(repo, "aiokafka", "errors.py")
+    tree = ast.parse(open(path).read())
+    own, bases, errno = {}, {}, {}
+    for n in tree.body:
+        if isinstance(n, ast.ClassDef):
+            bases[n.name] = [b.id for b in n.bases if isinstance(b, ast.Name)]
+            for st in n.body:
+                tgt = None
+                if isinstance(st, ast.Assign) and len(st.targets) == 1 and isinstance(st.targets[0], ast.Name):
+                    tgt, val = st.targets[0].id, st.value
+                elif isinstance(st, ast.AnnAssign) and isinstance(st.target, ast.Name) and st.value is not None:
+                    tgt, val = st.target.id, st.value
+                if tgt == attr and isinstance(val, ast.Constant) and isinstance(val.value, bool):
+                    own[n.name] = val.value
+                if tgt == "errno":
+                    if isinstance(val, ast.UnaryOp) and isinstance(val.op, ast.USub):
+                        errno[n.name] = -val.operand.value
+                    elif isinstance(val, ast.Constant):
+                        errno[n.name] = val.value
+
+    def resolve(c, seen=()):
+        if c in own:
+            return own[c]
+        for b in bases.get(c, []):
+            if b not in seen:
+                r = resolve(b, seen + (c,))
+                if r is not None:
+                    return r
+        return None
+    return {errno[c]: bool(resolve(c)) for c in errno}
 
 
 def errno_table(repo):
@@ -68,6 +105,7 @@ class DispatchTr:
         self.var = getattr(unit, "dispatch_var", "error_type")
         self.errno = errno_table(unit._repo)
         self.lets = []
+        self.uses_flags = set()
 
     # ---------------------------------------------------------------- conditions
     def err_code(self, node):
@@ -96,6 +134,20 @@ class DispatchTr:
                 d = " || ".join(f"(c =? {self.z(self.err_code(e))})" for e in rhs.elts)
                 d = f"({d})" if rhs.elts else "false"
                 return d if isinstance(op, ast.In) else f"(negb {d})"
+        if isinstance(t, ast.UnaryOp) and isinstance(t.op, ast.Not):
+            return f"(negb {self.cond(t.operand)})"
+        if isinstance(t, ast.Call):
+            name, full = self.call_name(t)
+            # getattr(error, "invalid_metadata", False)
+            if full == "getattr" and len(t.args) == 3 and self.is_var(t.args[0]) \
+                    and isinstance(t.args[1], ast.Constant) and t.args[1].value in ("invalid_metadata", "retriable") \
+                    and isinstance(t.args[2], ast.Constant) and t.args[2].value is False:
+                self.uses_flags.add(t.args[1].value)
+                return f"({t.args[1].value} c)"
+            # a predicate method of the same class over (error instance, ...): translated separately
+            preds = getattr(self.u, "dispatch_preds", {})
+            if name in preds:
+                return f"({preds[name]} c {' '.join(self.u.dispatch_params)})"
         if isinstance(t, ast.BoolOp):
             parts = [self.cond(v) for v in t.values]
             j = " && " if isinstance(t.op, ast.And) else " || "
@@ -190,6 +242,8 @@ class DispatchTr:
                     return f"({CALL_ACTS[name]} :: {self.block(rest, k, env)})"
                 if name == "add" and full.endswith("unauthorized_topics.add"):
                     return f"(AErrored :: {self.block(rest, k, env)})"
+                if name == "append" and full.endswith("_to_reenqueue.append"):
+                    return f"(AReenqueue :: {self.block(rest, k, env)})"
             raise Unsupported(f"{self.u.qualname}: statement outside the subset at line {s.lineno}: "
                               f"{ast.get_source_segment(self.src, s)!r}")
         if isinstance(s, ast.Assign) and len(s.targets) == 1:
@@ -205,6 +259,11 @@ class DispatchTr:
                 env2 = dict(env)
                 env2[t.id] = "ARaiseUnexpected" if v.func.attr == "KafkaError" else "ARaiseOther"
                 return self.block(rest, k, env2)
+            if isinstance(t, ast.Name) and isinstance(v, ast.Call) and isinstance(v.func, ast.Name) \
+                    and (v.func.id in self.errno or v.func.id[:1].isupper()):
+                env2 = dict(env)
+                env2[t.id] = f"(ARaiseCode {self.z(self.errno[v.func.id])})" if v.func.id in self.errno else "ARaiseOther"
+                return self.block(rest, k, env2)
             if src_t.endswith("member_id") and not self.mentions_var(v):
                 return f"(ASetMemberId :: {self.block(rest, k, env)})"
             if isinstance(t, ast.Name) and t.id == "try_join" and isinstance(v, ast.Constant):
@@ -213,6 +272,53 @@ class DispatchTr:
                 return f"(AErrored :: {self.block(rest, k, env)})"
             raise Unsupported(f"{self.u.qualname}: assignment outside the subset at line {s.lineno}: {src_t}")
         raise Unsupported(f"{self.u.qualname}: {type(s).__name__} outside the subset at line {s.lineno}")
+
+    def pred_expr(self, e, argmap):
+        """boolean expression of a predicate method: names of the unit's parameters, `error.retriable`,
+        `X is None`, calls declared in unit.dispatch_atoms, and/or/not, constants"""
+        atoms = getattr(self.u, "dispatch_atoms", {})
+        src = ast.get_source_segment(self.src, e)
+        if src in atoms:
+            return atoms[src]
+        if isinstance(e, ast.Constant) and isinstance(e.value, bool):
+            return "true" if e.value else "false"
+        if isinstance(e, ast.BoolOp):
+            j = " && " if isinstance(e.op, ast.And) else " || "
+            return "(" + j.join(self.pred_expr(v, argmap) for v in e.values) + ")"
+        if isinstance(e, ast.UnaryOp) and isinstance(e.op, ast.Not):
+            return f"(negb {self.pred_expr(e.operand, argmap)})"
+        if isinstance(e, ast.Attribute) and isinstance(e.value, ast.Name) and e.value.id == argmap.get("error") \
+                and e.attr in ("retriable", "invalid_metadata"):
+            self.uses_flags.add(e.attr)
+            return f"({e.attr} c)"
+        raise Unsupported(f"{self.u.qualname}: predicate expression outside the subset: {src!r}")
+
+    def pred_definitions(self):
+        out = []
+        for meth, coqname in getattr(self.u, "dispatch_preds", {}).items():
+            cls = self.u.qualname.split(".")[0]
+            fn, _ = find_function(self.tree, f"{cls}.{meth}", allow_async=True)
+            args = [a.arg for a in fn.args.args]
+            argmap = {"error": args[1]} if len(args) > 1 else {}
+            # body: (if cond: return <bool>)* ; return <expr>
+            term = None
+            stmts = [s for s in fn.body if not (isinstance(s, ast.Expr) and isinstance(s.value, ast.Constant))]
+            for st in reversed(stmts):
+                if isinstance(st, ast.Return):
+                    term = self.pred_expr(st.value, argmap)
+                elif isinstance(st, ast.If) and len(st.body) == 1 and isinstance(st.body[0], ast.Return) and not st.orelse \
+                        and term is not None:
+                    term = f"(if {self.pred_expr(st.test, argmap)} then {self.pred_expr(st.body[0].value, argmap)} else {term})"
+                else:
+                    raise Unsupported(f"{cls}.{meth}: statement outside the predicate subset at line {st.lineno}")
+            if term is None:
+                raise Unsupported(f"{cls}.{meth}: no return")
+            ptxt = "".join(f" ({p} : bool)" for p in self.u.dispatch_params)
+            seg = ast.get_source_segment(self.src, fn)
+            out.append(f"(* {cls}.{meth}, lines {fn.lineno}-{fn.end_lineno}, sha256 {hashlib.sha256(seg.encode()).hexdigest()[:16]} *)")
+            out.append(f"Definition {coqname} (c : Z){ptxt} : bool := {term}.")
+            out.append("")
+        return out
 
     def bind(self, term):
         """Share a continuation through a let (keeps the generated term linear in the source size)."""
@@ -256,7 +362,17 @@ class DispatchTr:
              f"   source: {u.file}:{chain[0].lineno}-{chain[-1].end_lineno}  function {u.qualname}",
              f"   sha256 of the function text: {sha} *)", PRELUDE]
         name = u.module[0].lower() + u.module[1:]
-        L.append(f"Definition {name} (c : Z) : list act :=")
+        params = getattr(u, "dispatch_params", [])
+        pred_defs = self.pred_definitions()          # may add to uses_flags
+        for fl in sorted(self.uses_flags):
+            tab = class_flags(u._repo, fl)
+            codes = sorted(c for c, v in tab.items() if v)
+            L.append(f"(* errno of the classes of aiokafka/errors.py whose `{fl}` attribute is True *)")
+            L.append(f"Definition {fl} (c : Z) : bool := existsb (Z.eqb c) [{'; '.join(self.z(c) for c in codes)}].")
+            L.append("")
+        L.extend(pred_defs)
+        ptxt = "".join(f" ({p} : bool)" for p in params)
+        L.append(f"Definition {name} (c : Z){ptxt} : list act :=")
         for n, t in self.lets:
             L.append(f"  let {n} := {t} in")
         L.append(f"  {term}.")
